@@ -18,6 +18,7 @@ import (
 	"os"
 	"path/filepath"
 	"sync"
+	"sync/atomic"
 	"time"
 
 	"github.com/IrineSistiana/mosproxy/app/router"
@@ -230,6 +231,14 @@ func stressClient(f *fixture, kind string, qs []stressQ, cnt *stressCounts) {
 	cnt.mu.Lock()
 	cnt.sent += len(qs)
 	cnt.mu.Unlock()
+	var got atomic.Int64
+	if os.Getenv("MIXDEBUG") != "" {
+		defer func() {
+			if int(got.Load()) != len(qs) {
+				fmt.Fprintf(os.Stderr, "client %s: %d of %d\n", kind, got.Load(), len(qs))
+			}
+		}()
+	}
 	byID := map[uint16]stressQ{}
 	for _, q := range qs {
 		byID[q.id] = q
@@ -268,6 +277,7 @@ func stressClient(f *fixture, kind string, qs []stressQ, cnt *stressCounts) {
 				continue
 			}
 			seen[id] = true
+			got.Add(1)
 			cnt.judge(id, q.name, q.typ, append([]byte(nil), buf[:n]...))
 		}
 	case "tcp", "gnet", "tls":
@@ -300,6 +310,7 @@ func stressClient(f *fixture, kind string, qs []stressQ, cnt *stressCounts) {
 				continue
 			}
 			seen[id] = true
+			got.Add(1)
 			cnt.judge(id, q.name, q.typ, b)
 		}
 	default: // http, https, fasthttp, quic: one request / stream per query, run concurrently
@@ -313,6 +324,7 @@ func stressClient(f *fixture, kind string, qs []stressQ, cnt *stressCounts) {
 				defer func() { <-sem; wg.Done() }()
 				res := f.exchange(kind, buildQuery(q.id, q.name, q.typ, false, 0), []string{"get", "post"}[int(q.id)%2], 8*time.Second)
 				if res.status == "resp" {
+					got.Add(1)
 					cnt.judge(q.id, q.name, q.typ, res.resp)
 				}
 			}()
